@@ -22,11 +22,11 @@ Theorem std_accessor_agrees : forall a x,
 Proof. exact (@std_accessor_agrees). Qed.
 Print Assumptions std_accessor_agrees.
 
-(* The six comparisons, hash, timestamp, utcoffset, isoformat, strftime, ctime, tzname, dst, timetz (DateTime) and the Date / Time accessors resolve to the native classes. *)
+(* The six comparisons, hash, timestamp, utcoffset, isoformat, strftime, ctime, tzname, dst (DateTime) and the Date / Time accessors resolve to the native classes. *)
 Theorem comparisons_and_hash_are_inherited : map (fun n => std_lookup "DateTime" n) ["__eq__"; "__ne__"; "__lt__"; "__le__"; "__gt__"; "__ge__"; "__hash__"; "timestamp"; "utcoffset"; "isoformat";
-                                          "strftime"; "ctime"; "tzname"; "dst"; "timetz"]%string
+                                          "strftime"; "ctime"; "tzname"; "dst"]%string
   = map (fun o => Some (1, o)) ["datetime"; "datetime"; "datetime"; "datetime"; "datetime"; "datetime"; "datetime"; "datetime"; "datetime"; "datetime";
-                                "date"; "datetime"; "datetime"; "datetime"; "datetime"]%string
+                                "date"; "datetime"; "datetime"; "datetime"]%string
   /\ map (fun n => std_lookup "Date" n) ["__eq__"; "__lt__"; "__hash__"; "isoformat"; "toordinal"; "weekday"; "isocalendar"; "timetuple"; "__rsub__"; "__radd__"]%string
      = map (fun o => Some (1, o)) ["date"; "date"; "date"; "date"; "date"; "date"; "date"; "date"; "date"; "date"]%string
   /\ map (fun n => std_lookup "Time" n) ["__eq__"; "__lt__"; "__hash__"; "isoformat"; "utcoffset"; "tzname"; "dst"; "strftime"]%string
@@ -41,18 +41,51 @@ Theorem date_fields : forall x,
 Proof. exact (@date_fields). Qed.
 Print Assumptions date_fields.
 
-(* time(): pendulum Time with exactly the native time()'s hour/minute/second/microsecond (in range, recomposing the wall time of day); fold is 0. *)
+(* time(): pendulum Time with exactly the native time()'s hour/minute/second/microsecond (in range, recomposing the wall time of day) and the native time()'s fold. *)
 Theorem time_fields : forall x,
-  exists h mi s us, native_acc A_time x = Ok [0; h; mi; s; us; Z.b2z (v_fold x)] /\ dispatch_model A_time x = Some (Ok [1; h; mi; s; us; 0])
+  exists h mi s us, native_acc A_time x = Ok [0; h; mi; s; us; Z.b2z (v_fold x)] /\ dispatch_model A_time x = Some (Ok [1; h; mi; s; us; Z.b2z (v_fold x)])
     /\ 0 <= h < 24 /\ 0 <= mi < 60 /\ 0 <= s < 60 /\ 0 <= us < 1000000
     /\ ((h * 60 + mi) * 60 + s) * 1000000 + us = v_wall x mod us_per_day.
 Proof. exact (@time_fields). Qed.
 Print Assumptions time_fields.
 
-(* FINDING time-drops-fold: the native time() keeps fold, DateTime.time() drops it. *)
-Theorem time_fold_refuted : exists x, native_acc A_time x = Ok [0; 2; 30; 0; 0; 1] /\ dispatch_model A_time x = Some (Ok [1; 2; 30; 0; 0; 0]).
-Proof. exact (@time_fold_refuted). Qed.
-Print Assumptions time_fold_refuted.
+(* time() of the override's model is the native time() with the type Time: same fields, same fold (every value, both folds). *)
+Theorem time_native : forall x,
+  pd_time x = (TyTime, snd (fst (native_time x)), snd (native_time x)) /\ fst (fst (native_time x)) = Ty_time.
+Proof. exact (@time_native). Qed.
+Print Assumptions time_native.
+
+(* Non-vacuity on the former witness of finding time-drops-fold (fixed): 02:30 fold 1 keeps fold 1. *)
+Theorem time_keeps_fold_instance : let x := mkdtv (W_2013_10_27 + 2 * HOUR + HOUR / 2) true None in
+  native_acc A_time x = Ok [0; 2; 30; 0; 0; 1] /\ dispatch_model A_time x = Some (Ok [1; 2; 30; 0; 0; 1]).
+Proof. exact (@time_keeps_fold_instance). Qed.
+Print Assumptions time_keeps_fold_instance.
+
+(* timetz(): overridden by DateTime (generated table); a pendulum Time with exactly the native timetz()'s fields, fold and tzinfo object. *)
+Theorem timetz_fields : forall x,
+  exists h mi s us, native_acc A_timetz x = Ok [0; h; mi; s; us; Z.b2z (v_fold x); tz_code (v_tz x)]
+    /\ dispatch_model A_timetz x = Some (Ok [1; h; mi; s; us; Z.b2z (v_fold x); tz_code (v_tz x)])
+    /\ 0 <= h < 24 /\ 0 <= mi < 60 /\ 0 <= s < 60 /\ 0 <= us < 1000000
+    /\ ((h * 60 + mi) * 60 + s) * 1000000 + us = v_wall x mod us_per_day.
+Proof. exact (@timetz_fields). Qed.
+Print Assumptions timetz_fields.
+
+(* ... as records: type Time, the native timetz()'s fields, fold and the receiver's very tzinfo value; time() is timetz() without the tzinfo. *)
+Theorem timetz_native : forall x,
+  std_lookup "DateTime" "timetz" = Some (0, "DateTime"%string) /\
+  pd_timetz x = (TyTime, snd (fst (fst (native_timetz x))), snd (fst (native_timetz x)), snd (native_timetz x)) /\
+  snd (native_timetz x) = v_tz x /\ snd (fst (native_timetz x)) = v_fold x /\
+  pd_time x = fst (pd_timetz x).
+Proof. exact (@timetz_native). Qed.
+Print Assumptions timetz_native.
+
+(* Non-vacuity on the former witness of finding timetz-returns-native-time (fixed) and on fold-1 / naive values. *)
+Theorem timetz_instance :
+  dispatch_model A_timetz (mkdtv (W_2013_03_31 + 3 * HOUR + HOUR / 2) false (Some (tz_paris 1))) = Some (Ok [1; 3; 30; 0; 0; 0; 1]) /\
+  dispatch_model A_timetz (mkdtv (W_2013_10_27 + 2 * HOUR + HOUR / 2) true (Some (tz_paris 1))) = Some (Ok [1; 2; 30; 0; 0; 1; 1]) /\
+  dispatch_model A_timetz (mkdtv (W_2013_10_27 + 2 * HOUR + HOUR / 2) true None) = Some (Ok [1; 2; 30; 0; 0; 1; NONE]).
+Proof. exact (@timetz_instance). Qed.
+Print Assumptions timetz_instance.
 
 (* astimezone(tz), every well-formed zone: same wall fields, fold and tzinfo as the native astimezone, of type DateTime; raises exactly when the native one raises. *)
 Theorem astimezone_native : forall x tz isp,
@@ -207,9 +240,10 @@ Theorem sub_float_roundtrip_refuted : let x := pop (mkdtv 179622456367079810 fal
 Proof. exact (@sub_float_roundtrip_refuted). Qed.
 Print Assumptions sub_float_roundtrip_refuted.
 
-(* date() time() astimezone() and the subtractions return pendulum types. *)
+(* date() time() timetz() astimezone() and the subtractions return pendulum types. *)
 Theorem returns_pendulum_types : forall x y tz isp,
   is_pendulum_type (fst (pd_date (o_val x))) = true /\ is_pendulum_type (fst (fst (pd_time (o_val x)))) = true /\
+  is_pendulum_type (fst (fst (fst (pd_timetz (o_val x))))) = true /\
   (forall t r k, pd_astimezone (o_val x) tz isp = Ok (t, r, k) -> is_pendulum_type t = true) /\
   (forall t N, pd_sub x y = Ok (t, N) -> is_pendulum_type t = true) /\
   (forall n1 n2 t N, pd_date_sub n1 n2 = Ok (t, N) -> is_pendulum_type t = true) /\
@@ -217,11 +251,11 @@ Theorem returns_pendulum_types : forall x y tz isp,
 Proof. exact (@returns_pendulum_types). Qed.
 Print Assumptions returns_pendulum_types.
 
-(* FINDING timetz-returns-native-time: timetz is not overridden and the native slot returns a native datetime.time. *)
-Theorem returns_pendulum_types_timetz_refuted : std_lookup "DateTime" "timetz" = Some (1, "datetime"%string) /\
-  forall x, is_pendulum_type (fst (fst (fst (native_timetz x)))) = false.
-Proof. exact (@timetz_type_refuted). Qed.
-Print Assumptions returns_pendulum_types_timetz_refuted.
+(* Time - Time (extension of the native class) is a Duration of exactly the difference of the two times of day in microseconds. *)
+Theorem time_sub_exact : forall h1 m1 s1 us1 h2 m2 s2 us2,
+  pd_time_sub h1 m1 s1 us1 h2 m2 s2 us2 = (TyDuration, (((h1 * 60 + m1) * 60 + s1) * 1000000 + us1) - (((h2 * 60 + m2) * 60 + s2) * 1000000 + us2)).
+Proof. exact (@time_sub_exact). Qed.
+Print Assumptions time_sub_exact.
 
 (* FixedTimezone.utcoffset/dst/fromutc are the fixed zone's. *)
 Theorem fixed_timezone_native : forall o W,
